@@ -47,6 +47,7 @@ def spec_side(ctx):
 
 
 def run(ctx):
+    ctx.prove("ObjectReuseProofs")   # TLAPS: MarshalIsCurrent after ANY call sequence on one object (intended design)
     spec_side(ctx)
     beh = ctx.generate("Gen_Reuse", overrides={"Depth": ctx.pick(4, 5)}, raw=True)
     bpath = os.path.join(ctx.scratch, "reuse-behaviours.txt")
